@@ -1,153 +1,83 @@
-(* C02 - models of the places where the implementation is known to leave the
-   documented meaning (DESIGN.md section 7, findings 6, 10, 11 and the
-   variable-flag aliasing found by this check).  They are used to CLASSIFY a
-   disagreement between [RuleSet.run] and the implementation: a case whose
-   observed verdicts are reproduced by switching one of these models on is
-   reported under that finding's fingerprint; anything else is a new
-   violation.
+(* C02 - model of the compiler's constant folding (lib/src/compiler/ir/mod.rs:
+   minus, bitwise_not, bitwise_and/or/xor, shl/shr with a non-negative
+   constant count, and add/sub/mul through fold_arithmetic, which since
+   commit 8b83ae6a folds integer operands with CHECKED i64 arithmetic) as a
+   source-to-source transformation, and of the places where the
+   implementation is known to leave the documented meaning.
 
-   * [prefold]: the compiler's constant folding of integer + - * through f64
-     (lib/src/compiler/ir/mod.rs, fold_arithmetic), as a source-to-source
-     transformation.  An n-ary chain `a + b + c` (the parser flattens the left
-     spine of equal operators, parser/src/ast/cst2ast.rs new_n_ary_expr) is
-     folded only when ALL its operands are constants; every step is rounded to
-     53 bits; the result is converted with a saturating cast.
-   * [e_fast] in Sem.v: `N of <set>` over consecutive pattern ids.
-   * [var_depth]: number of variable slots a condition needs; from slot 64 on
-     the undefined-flag of slot v aliases the flag of slot v - 56
-     (emit.rs load_var / set_var_undef use index/64 as a byte address). *)
+   * [prefold]: every maximal integer subexpression made of constants is
+     replaced by its value.  A constant + - * whose exact result leaves the
+     i64 range is rejected by the compiler (NumberOutOfRange): an accept /
+     reject difference, not a verdict difference; the model leaves such a
+     node unfolded and the harness does not generate it.  [fold_sound]
+     (QuirksProofs.v): folding never changes the value of a condition.
+     (Before that commit the folding went through f64 and
+     `9007199254740993 + 1 == 9007199254740994` was false: DESIGN finding 10,
+     now a regression case of the harness.)
+   * [e_fast] in Sem.v: `N of <set>` over consecutive pattern ids with N <= 0
+     (findings 6, 11) - still open.
+   * the undefined-flag aliasing of variable slots >= 64 found by this check
+     was repaired by commit 93e33409 (regression stream "deep_vars"). *)
 From Coq Require Import List ZArith Bool Lia.
 From YV Require Import Cond.Syntax Cond.Sem.
 Import ListNotations.
 Local Open Scope Z_scope.
 
-(* round-to-nearest-even of an integer to 53 significant bits: the value of
-   `z as f64`, and of a correctly rounded f64 operation whose exact result is z *)
-Definition r53 (z : Z) : Z :=
-  if z =? 0 then 0 else
-  let a := Z.abs z in
-  let e := Z.log2 a - 52 in
-  if e <=? 0 then z else
-  let q := Z.shiftr a e in
-  let r := a - Z.shiftl q e in
-  let half := Z.shiftl 1 (e - 1) in
-  let q' := if (half <? r) || ((half =? r) && Z.odd q) then q + 1 else q in
-  Z.sgn z * Z.shiftl q' e.
-
-(* `folded as i64` guarded by `folded >= i64::MIN as f64 && folded <= i64::MAX as f64` *)
-Definition to_i64 (acc : Z) : option Z :=
-  if (- two63 <=? acc) && (acc <=? two63) then
-    Some (if acc =? two63 then two63 - 1 else acc)
-  else None.
+Definition in_i64 (z : Z) : bool := (- two63 <=? z) && (z <? two63).
 
 Definition ap (op : arith) (a b : Z) : Z :=
   match op with Add => a + b | Sub => a - b | _ => a * b end.
 
-Definition finalize (r : expr * option (arith * Z)) : expr :=
-  match snd r with
-  | Some (_, acc) => match to_i64 acc with Some v => EInt v | None => fst r end
-  | None => fst r
+(* the value the compiler computes for an integer expression at compile time *)
+Fixpoint cval (e : expr) : option Z :=
+  match e with
+  | EInt z => Some z
+  | ENeg a => match cval a with Some v => Some (wrap64 (- v)) | None => None end
+  | EBitNot a => match cval a with Some v => Some (Z.lnot v) | None => None end
+  | EArith op a b =>
+      match cval a, cval b with
+      | Some x, Some y =>
+          match op with
+          | Add | Sub | Mul => let r := ap op x y in if in_i64 r then Some r else None
+          | Div | Mod => None
+          | Shl | Shr =>
+              if 0 <=? y then match arith_int op x y with VInt r => Some r | _ => None end else None
+          | BAnd | BOr | BXor => match arith_int op x y with VInt r => Some r | _ => None end
+          end
+      | _, _ => None
+      end
+  | _ => None
   end.
 
-Fixpoint pf (e : expr) : expr * option (arith * Z) :=
+Definition folded (e e' : expr) : expr :=
+  match cval e with Some v => EInt v | None => e' end.
+
+Fixpoint prefold (e : expr) : expr :=
   match e with
-  | EBool _ | EInt _ | EStr _ | EFilesize | EVar _ | EGlobal _ | ERule _ => (e, None)
-  | ENot a => (ENot (finalize (pf a)), None)
-  | EAnd a b => (EAnd (finalize (pf a)) (finalize (pf b)), None)
-  | EOr a b => (EOr (finalize (pf a)) (finalize (pf b)), None)
-  | EDefined a => (EDefined (finalize (pf a)), None)
-  | ENeg a =>
-      match finalize (pf a) with
-      | EInt v => (EInt (wrap64 (- v)), None)
-      | a' => (ENeg a', None)
-      end
-  | EBitNot a =>
-      match finalize (pf a) with
-      | EInt v => (EInt (Z.lnot v), None)
-      | a' => (EBitNot a', None)
-      end
-  | EArith op a b =>
-      let ra := pf a in
-      let b' := finalize (pf b) in
-      if additive op then
-        match snd ra with
-        | Some (opa, acca) =>
-            if arith_eqb opa op then
-              (* the chain continues: a + b + c is one n-ary node *)
-              match b' with
-              | EInt vb => (EArith op (fst ra) b', Some (op, r53 (ap op acca (r53 vb))))
-              | _ => (EArith op (fst ra) b', None)
-              end
-            else
-              let a' := finalize ra in
-              match a', b' with
-              | EInt va, EInt vb => (EArith op a' b', Some (op, r53 (ap op (r53 va) (r53 vb))))
-              | _, _ => (EArith op a' b', None)
-              end
-        | None =>
-            let a' := fst ra in
-            match a', b' with
-            | EInt va, EInt vb => (EArith op a' b', Some (op, r53 (ap op (r53 va) (r53 vb))))
-            | _, _ => (EArith op a' b', None)
-            end
-        end
-      else
-        let a' := finalize ra in
-        match op, a', b' with
-        | (BAnd | BOr | BXor), EInt va, EInt vb =>
-            (match arith_int op va vb with VInt r => EInt r | _ => EArith op a' b' end, None)
-        | (Shl | Shr), EInt va, EInt vb =>
-            if 0 <=? vb then
-              (match arith_int op va vb with VInt r => EInt r | _ => EArith op a' b' end, None)
-            else (EArith op a' b', None)
-        | _, _, _ => (EArith op a' b', None)
-        end
-  | ECmp op a b => (ECmp op (finalize (pf a)) (finalize (pf b)), None)
-  | EStrOp op a b => (EStrOp op (finalize (pf a)) (finalize (pf b)), None)
-  | ERead k off => (ERead k (finalize (pf off)), None)
-  | EPat p ak a1 a2 => (EPat p ak (finalize (pf a1)) (finalize (pf a2)), None)
-  | ECount p rg lo hi => (ECount p rg (finalize (pf lo)) (finalize (pf hi)), None)
-  | EOffset p i => (EOffset p (finalize (pf i)), None)
-  | ELength p i => (ELength p (finalize (pf i)), None)
-  | EOf qk q set ak a1 a2 =>
-      (EOf qk (finalize (pf q)) set ak (finalize (pf a1)) (finalize (pf a2)), None)
-  | EOfB qk q items => (EOfB qk (finalize (pf q)) (pf_list items), None)
-  | EForOf qk q set body => (EForOf qk (finalize (pf q)) set (finalize (pf body)), None)
-  | EForRange qk q x lo hi body =>
-      (EForRange qk (finalize (pf q)) x (finalize (pf lo)) (finalize (pf hi)) (finalize (pf body)), None)
-  | EForTuple qk q x items body =>
-      (EForTuple qk (finalize (pf q)) x (pf_list items) (finalize (pf body)), None)
-  | EWith x d body => (EWith x (finalize (pf d)) (finalize (pf body)), None)
+  | EBool _ | EInt _ | EStr _ | EFilesize | EVar _ | EGlobal _ | ERule _ => e
+  | ENot a => ENot (prefold a)
+  | EAnd a b => EAnd (prefold a) (prefold b)
+  | EOr a b => EOr (prefold a) (prefold b)
+  | EDefined a => EDefined (prefold a)
+  | ENeg a => folded e (ENeg (prefold a))
+  | EBitNot a => folded e (EBitNot (prefold a))
+  | EArith op a b => folded e (EArith op (prefold a) (prefold b))
+  | ECmp op a b => ECmp op (prefold a) (prefold b)
+  | EStrOp op a b => EStrOp op (prefold a) (prefold b)
+  | ERead k off => ERead k (prefold off)
+  | EPat p ak a1 a2 => EPat p ak (prefold a1) (prefold a2)
+  | ECount p rg lo hi => ECount p rg (prefold lo) (prefold hi)
+  | EOffset p i => EOffset p (prefold i)
+  | ELength p i => ELength p (prefold i)
+  | EOf qk q set ak a1 a2 => EOf qk (prefold q) set ak (prefold a1) (prefold a2)
+  | EOfB qk q items => EOfB qk (prefold q) (prefold_list items)
+  | EForOf qk q set body => EForOf qk (prefold q) set (prefold body)
+  | EForRange qk q x lo hi body => EForRange qk (prefold q) x (prefold lo) (prefold hi) (prefold body)
+  | EForTuple qk q x items body => EForTuple qk (prefold q) x (prefold_list items) (prefold body)
+  | EWith x d body => EWith x (prefold d) (prefold body)
   end
-with pf_list (es : exprs) : exprs :=
+with prefold_list (es : exprs) : exprs :=
   match es with
   | ENil => ENil
-  | ECons e t => ECons (finalize (pf e)) (pf_list t)
-  end.
-
-Definition prefold (e : expr) : expr := finalize (pf e).
-
-(* ------------------------------------------------------------ variable slots *)
-(* frame sizes of lib/src/compiler/context.rs (VarStack): `of` 5, `for..of` 5,
-   `for..in` 7, `with` one slot per declaration.  Quantifier and iterable are
-   compiled before the frame is opened; the anchor of an `of` inside it. *)
-Fixpoint var_depth (e : expr) : nat :=
-  match e with
-  | EBool _ | EInt _ | EStr _ | EFilesize | EVar _ | EGlobal _ | ERule _ => 0
-  | ENot a | EDefined a | ENeg a | EBitNot a | ERead _ a | EOffset _ a | ELength _ a => var_depth a
-  | EAnd a b | EOr a b | EArith _ a b | ECmp _ a b | EStrOp _ a b
-  | EPat _ _ a b | ECount _ _ a b => Nat.max (var_depth a) (var_depth b)
-  | EOf _ q _ _ a1 a2 => Nat.max (var_depth q) (5 + Nat.max (var_depth a1) (var_depth a2))
-  | EOfB _ q items => Nat.max (var_depth q) (5 + var_depth_list items)
-  | EForOf _ q _ body => Nat.max (var_depth q) (5 + var_depth body)
-  | EForRange _ q _ lo hi body =>
-      Nat.max (var_depth q) (Nat.max (Nat.max (var_depth lo) (var_depth hi)) (7 + var_depth body))
-  | EForTuple _ q _ items body =>
-      Nat.max (var_depth q) (Nat.max (var_depth_list items) (7 + var_depth body))
-  | EWith _ d body => Nat.max (var_depth d) (1 + var_depth body)
-  end
-with var_depth_list (es : exprs) : nat :=
-  match es with
-  | ENil => 0
-  | ECons e t => Nat.max (var_depth e) (var_depth_list t)
+  | ECons e t => ECons (prefold e) (prefold_list t)
   end.
